@@ -1239,7 +1239,7 @@ func (fr *Frame) appendBuiltin(st *State, g string, c *ssa.CallCommon, pos token
 	if known {
 		arr = oldArr
 		for i, e := range elems {
-			arr = fmt.Sprintf("(store %s %s %s)", arr, vc.addInt(vc.addInt(off, ln), vc.intLitN(int64(i), it)), e)
+			arr = fmt.Sprintf("(store %s %s %s)", arr, vc.absIdx(s, vc.addInt(ln, vc.intLitN(int64(i), it))), e)
 		}
 	} else {
 		// appended region unknown: fresh array agreeing with the old one below off+len
